@@ -13,7 +13,11 @@ def main():
     chk = Check("DEV", "quick")
     r = gen.run_focus(chk, module, focus, max_top=top, extra_constants=consts)
     if r is None:
-        print(chk.machinery_error or chk._viol)
+        e = chk.machinery_error or ""
+        i = e.find("Error:")
+        print(e[i:i + 2500] if i >= 0 else e[-2500:])
+        for k, v in chk._viol.items():
+            print(k); print("\n".join(v.get("trace", [])[:40]))
         return
     fails = collections.OrderedDict(); n = 0
     for rec in r.out_lines():
